@@ -49,6 +49,11 @@ def gen_cases(tier, seed):
     # stored witness of the open finding KF-C03-ILLCOND-ACTIVE-SET (always exercised)
     cases.append(work.mk_case("FILE", [0], {"newton": "Full", "iteration_limit": BUDGET}, variant="newton=Full",
                               gopts={"path": "witness/C03_illcond_active_set.json"}))
+    # ... and of its second manifestation KF-C03-ILLCOND-ACTIVE-SET-LOCINF
+    w2 = work.mk_case("FILE", [0], {"step_solver": "Standard", "iteration_limit": BUDGET}, variant="step_solver=Standard",
+                      gopts={"path": "witness/C03_illcond_locally_infeasible.json"})
+    w2.update(fmt="coo", dup=2, y0="none")
+    cases.append(w2)
     for i in range(nband):
         for vname, v in VARIANTS:
             c = work.mk_case("BAND", [seed, 10_000 + i], dict(v, iteration_limit=BUDGET), variant=vname,
